@@ -76,8 +76,8 @@ IdxCanonical(idx) ==
 HasObj(st, id) == id \in DOMAIN st.objs
 Obj(st, id) == ObjOfTok(st.objs[id])
 KindOf(st, id) == IF HasObj(st, id) THEN Obj(st, id).k ELSE "none"
-IsCommit(st, id) == HasObj(st, id) /\ Obj(st, id).k = "commit" /\ Obj(st, id).ok
-IsTree(st, id) == HasObj(st, id) /\ Obj(st, id).k = "tree" /\ Obj(st, id).ok
+IsCommit(st, id) == HasObj(st, id) /\ LET o == Obj(st, id) IN o.k = "commit" /\ o.ok
+IsTree(st, id) == HasObj(st, id) /\ LET o == Obj(st, id) IN o.k = "tree" /\ o.ok
 IsBlob(st, id) == HasObj(st, id) /\ Obj(st, id).k = "blob"
 BadObjs(st) == {id \in DOMAIN st.objs : Obj(st, id).k = "bad"}
 BlobIdOf(c) == BlobIdFn(c)
@@ -89,9 +89,10 @@ FlattenT(st, tid, pfx) ==
     IF ~HasObj(st, tid) THEN {<<pfx \o "?missing", tid>>}
     ELSE LET o == Obj(st, tid) IN
          IF o.k # "tree" THEN {<<pfx \o "?notatree", tid>>}
-         ELSE UNION { IF o.ents[i].m = "040000"
-                        THEN FlattenT(st, o.ents[i].id, pfx \o o.ents[i].n \o "/")
-                        ELSE {<<pfx \o o.ents[i].n, o.ents[i].id>>} : i \in 1..Len(o.ents) }
+         ELSE UNION { LET en == o.ents[i] IN
+                      IF en.m = "040000"
+                        THEN FlattenT(st, en.id, pfx \o en.n \o "/")
+                        ELSE {<<pfx \o en.n, en.id>>} : i \in 1..Len(o.ents) }
 Flatten(st, tid) == FlattenT(st, tid, "")
 
 GitKeyB(e) == IF e.m = "040000" THEN Bytes(e.n) \o <<SLASH>> ELSE Bytes(e.n)
@@ -104,8 +105,8 @@ TreeWellFormed(o) ==
 RECURSIVE TreesOf(_, _)
 TreesOf(st, tid) ==
     IF ~IsTree(st, tid) THEN {tid}
-    ELSE {tid} \cup UNION { IF Obj(st, tid).ents[i].m = "040000" THEN TreesOf(st, Obj(st, tid).ents[i].id) ELSE {}
-                            : i \in 1..Len(Obj(st, tid).ents) }
+    ELSE LET o == Obj(st, tid) IN
+         {tid} \cup UNION { IF o.ents[i].m = "040000" THEN TreesOf(st, o.ents[i].id) ELSE {} : i \in 1..Len(o.ents) }
 
 ----------------------------------------------------------------------------
 (* Refs and HEAD *)
